@@ -6,7 +6,8 @@ import NeumannModel.RelTx.Model
   (the harness keeps the model-id ↔ real-id table).
 
     init <lockTimeoutMs> <txTimeoutMs>          ok
-    create_table <ncols>                        ok <t>
+    create_table <ncols> [<nullable cols c,c|->] ok <t>
+    values: a decimal number or N (NULL; also what an omitted nullable column is stored as)
     begin                                       ok <tx>
     commit <tx> | rollback <tx>                 ok | err <class>
     tx_insert <tx> <t> <v,v>                    ok <rowid> | err <class>
@@ -40,13 +41,24 @@ def showRes (bump : Nat) : Res → String
   | .okN n => s!"ok {n + bump}"
   | .err e => "err " ++ showErr e
 
+/-- a value on the wire: a decimal number or `N` (NULL) -/
+def parseVal (s : String) : Option Val :=
+  if s = "N" then some .null else s.toInt?.map .int
+
+def showVal : Val → String
+  | .null => "N"
+  | .int v => toString v
+
+def parseVals (s : String) : Option (List Val) :=
+  if s = "-" then some [] else (s.splitOn ",").mapM parseVal
+
 def parseAtom (s : String) : Option Cond :=
   match s.splitOn ":" with
   | ["T"] => some .all
   | ["I", i] => match i.toNat? with
     | some (n + 1) => some (.idEq n)
     | _ => none
-  | [k, c, v] => match c.toNat?, v.toInt? with
+  | [k, c, v] => match c.toNat?, parseVal v with
     | some c, some v =>
       if k = "E" then some (.eq c v) else if k = "N" then some (.ne c v) else if k = "L" then some (.lt c v)
       else if k = "LE" then some (.le c v) else if k = "G" then some (.gt c v)
@@ -73,18 +85,18 @@ def parseCond (s : String) : Option Cond :=
   | some (c, []) => some c
   | _ => none
 
-def parseUpd (s : String) : Option (List (Nat × Int)) :=
+def parseUpd (s : String) : Option (List (Nat × Val)) :=
   if s = "-" then some [] else
   (s.splitOn ",").mapM fun e =>
     match e.splitOn "=" with
-    | [c, v] => match c.toNat?, v.toInt? with
+    | [c, v] => match c.toNat?, parseVal v with
       | some c, some v => some (c, v)
       | _, _ => none
     | _ => none
 
-def showRows (rs : List (Nat × List Int)) : String :=
+def showRows (rs : List (Nat × List Val)) : String :=
   if rs.isEmpty then "-" else
-  ";".intercalate (rs.map fun p => s!"{p.1 + 1}:" ++ ".".intercalate (p.2.map toString))
+  ";".intercalate (rs.map fun p => s!"{p.1 + 1}:" ++ ".".intercalate (p.2.map showVal))
 
 def sortNats (xs : List Nat) : List Nat := xs.mergeSort (fun a b => a ≤ b)
 
@@ -95,19 +107,21 @@ def relStep (s : State) (line : String) : State × String :=
   | ["init", a, b] => match a.toNat?, b.toNat? with
     | some a, some b => (init a b, "ok") | _, _ => bad
   | ["create_table", n] => match n.toNat? with
-    | some n => fin 0 (step s (.createTable n)) | none => bad
+    | some n => fin 0 (step s (.createTable n [])) | none => bad
+  | ["create_table", n, nl] => match n.toNat?, parseNats nl with
+    | some n, some nl => fin 0 (step s (.createTable n nl)) | _, _ => bad
   | ["begin"] => fin 0 (step s .begin)
   | ["commit", tx] => match tx.toNat? with
     | some tx => fin 0 (step s (.commit tx)) | none => bad
   | ["rollback", tx] => match tx.toNat? with
     | some tx => fin 0 (step s (.rollback tx)) | none => bad
-  | ["tx_insert", tx, t, vs] => match tx.toNat?, t.toNat?, parseInts vs with
+  | ["tx_insert", tx, t, vs] => match tx.toNat?, t.toNat?, parseVals vs with
     | some tx, some t, some vs => fin 1 (step s (.txInsert tx t vs)) | _, _, _ => bad
   | ["tx_update", tx, t, c, u] => match tx.toNat?, t.toNat?, parseCond c, parseUpd u with
     | some tx, some t, some c, some u => fin 0 (step s (.txUpdate tx t c u)) | _, _, _, _ => bad
   | ["tx_delete", tx, t, c] => match tx.toNat?, t.toNat?, parseCond c with
     | some tx, some t, some c => fin 0 (step s (.txDelete tx t c)) | _, _, _ => bad
-  | ["insert", t, vs] => match t.toNat?, parseInts vs with
+  | ["insert", t, vs] => match t.toNat?, parseVals vs with
     | some t, some vs => fin 1 (step s (.insert t vs)) | _, _ => bad
   | ["update", t, c, u] => match t.toNat?, parseCond c, parseUpd u with
     | some t, some c, some u => fin 0 (step s (.update t c u)) | _, _, _ => bad
